@@ -105,15 +105,95 @@ def lit_display(l):
 
 
 class Env:
-    def __init__(self, var=None, comp=None, count=None, cat=None):
-        self.var = var or (lambda k, f: "⟦" + k + ("|" + f["f"] if f["f"] != "none" else "") + "⟧")
-        self.comp = comp or (lambda k, inner: "⟨" + k + "⟩" + inner + "⟨/" + k + "⟩")
-        self.count = count or (lambda k: 0)
-        self.cat = cat or (lambda rule, c: "other")
+    """environment of the denotation, as data (so that the Lean specification can re-evaluate every use):
+    vars: key -> text; other variables render as var_default[0] + key (+ "|formatter") + var_default[1];
+    components render as comp[0] + tag + comp[1] + children + comp[2] (+ tag if close_tag) + comp[3];
+    counts: key -> number (count_default otherwise); cats: (rule, count) -> CLDR category (cat_default otherwise)"""
+
+    def __init__(self, vars=None, var_default=("⟦", "⟧"), var_fmt=True, comp=("⟨", "⟩", "⟨/", "⟩"), close_tag=True, tags=None,
+                 counts=None, count_default=0, cats=None, cat_default="other"):
+        from fractions import Fraction
+        self.vars = dict(vars or {})
+        self.var_default = tuple(var_default)
+        self.var_fmt = var_fmt
+        self.comp_t = tuple(comp)
+        self.close_tag = close_tag
+        self.tags = dict(tags or {})
+        self.counts = {k: Fraction(v) for k, v in (counts or {}).items()}
+        self.count_default = Fraction(count_default)
+        self.cats = {(r, Fraction(c)): f for (r, c), f in (cats or {}).items()}
+        self.cat_default = cat_default
         self.side_text = "SIDE"
+        self._json = None
+
+    def var(self, k, f):
+        if k in self.vars:
+            return self.vars[k]
+        return self.var_default[0] + k + (("|" + f["f"]) if (self.var_fmt and f["f"] != "none") else "") + self.var_default[1]
+
+    def comp(self, k, inner):
+        t = self.tags.get(k, k)
+        return self.comp_t[0] + t + self.comp_t[1] + inner + self.comp_t[2] + (t if self.close_tag else "") + self.comp_t[3]
+
+    def count(self, k):
+        return self.counts.get(k, self.count_default)
+
+    def cat(self, rule, c):
+        return self.cats.get((rule, c), self.cat_default)
+
+    def derive(self, **kw):
+        e = Env(vars=self.vars, var_default=self.var_default, var_fmt=self.var_fmt, comp=self.comp_t, close_tag=self.close_tag, tags=self.tags,
+                counts=self.counts, count_default=self.count_default, cat_default=self.cat_default)
+        e.cats = dict(self.cats)
+        e.side_text = self.side_text
+        for k, v in kw.items():
+            setattr(e, k, v)
+        e._json = None
+        return e
+
+    def to_json(self):
+        if self._json is None:
+            self._json = json.dumps({
+                "vars": sorted([k, v] for k, v in self.vars.items()), "var_default": list(self.var_default), "var_fmt": self.var_fmt,
+                "comp": list(self.comp_t), "close_tag": self.close_tag, "tags": sorted([k, v] for k, v in self.tags.items()),
+                "counts": sorted([k, frac_str(v)] for k, v in self.counts.items()), "count_default": frac_str(self.count_default),
+                "cats": sorted([r, frac_str(c), f] for (r, c), f in self.cats.items()), "cat_default": self.cat_default}, ensure_ascii=False)
+        return self._json
+
+
+def frac_str(v):
+    """exact decimal text of a fraction with a power-of-ten-friendly denominator"""
+    from fractions import Fraction
+    v = Fraction(v)
+    if v.denominator == 1:
+        return str(v.numerator)
+    d, e = v.denominator, 0
+    num = v.numerator
+    while d % 10 != 1 and e < 12 and (10 ** e) % d != 0:
+        e += 1
+    scaled = num * (10 ** e) // d
+    sign = "-" if scaled < 0 else ""
+    digits = str(abs(scaled)).rjust(e + 1, "0")
+    return sign + digits[:-e] + "." + digits[-e:]
+
+
+EVAL_LOG = []          # (env json, tree, text) triples produced by pv_eval at top level, re-evaluated by Lean at the end
+EVAL_LOG_LIMIT = 30000
+_depth = [0]
 
 
 def pv_eval(env, v):
+    _depth[0] += 1
+    try:
+        r = _pv_eval(env, v)
+    finally:
+        _depth[0] -= 1
+    if _depth[0] == 0 and len(EVAL_LOG) < EVAL_LOG_LIMIT and isinstance(env, Env):
+        EVAL_LOG.append((env.to_json(), v, r))
+    return r
+
+
+def _pv_eval(env, v):
     t = v["t"]
     if t == "lit":
         return lit_display(v)
@@ -281,3 +361,34 @@ def generic_pipeline_check(ctx, modules, projects, oracle, name, fmt="json", sup
         ctx.count("result:" + kind)
         oracle(ctx, p, o, i)
     return outs
+
+
+def crosscheck_evals(ctx):
+    """every denotation the python mirror computed is recomputed by `Spec/Eval.lean` in the Lean driver"""
+    if not EVAL_LOG:
+        return
+    envs, idx, items = [], {}, []
+    for ej, tree, text in EVAL_LOG:
+        if ej not in idx:
+            idx[ej] = len(envs)
+            envs.append(json.loads(ej))
+        items.append([idx[ej], tree, text])
+    n = len(items)
+    del EVAL_LOG[:]
+    bad = 0
+    for k in range(0, n, 4000):
+        r = lean_driver([{"op": "eval.batch", "envs": envs, "items": items[k:k + 4000]}], timeout=3600)[0]
+        for m in r["mismatches"]:
+            bad += 1
+            it = items[k + m["index"]]
+            raise HarnessError("python mirror of Spec/Eval disagrees with the Lean specification: tree=%s env=%s python=%r lean=%r" %
+                               (json.dumps(it[1], ensure_ascii=False)[:400], json.dumps(envs[it[0]], ensure_ascii=False)[:300], it[2], m["lean"]))
+    ctx.extra["denotations_rechecked_by_lean_spec"] = ctx.extra.get("denotations_rechecked_by_lean_spec", 0) + n
+
+
+_finish_broken_common = finish_broken
+
+
+def finish_broken(ctx, searched_desc):
+    crosscheck_evals(ctx)
+    _finish_broken_common(ctx, searched_desc)
